@@ -934,8 +934,26 @@ impl Case {
         langs_used.sort();
         langs_used.dedup();
 
+        // withdrawals in the ledger's order of reward accounts: network, script credentials before key
+        // credentials, credential hash
+        let mut wds: Vec<(u8, bool, Vec<u8>)> = vec![];
+        if !byron {
+            for (acct, _) in metx.withdrawals().collect::<Vec<(&[u8], u64)>>() {
+                if let Ok(Address::Stake(sa)) = Address::from_bytes(acct) {
+                    let netv = match sa.network() {
+                        pallas_addresses::Network::Testnet => 0,
+                        pallas_addresses::Network::Mainnet => 1,
+                        pallas_addresses::Network::Other(x) => x,
+                    };
+                    wds.push((netv, !sa.is_script(), sa.payload().as_hash().to_vec()));
+                }
+            }
+        }
+        wds.sort();
+        let withdrawals: Vec<Value> = wds.iter().map(|(_, key, h)| json!({"script": !key, "hash": hex::encode(h)})).collect();
+
         json!({
-            "era": self.era,
+            "era": self.era, "withdrawals": withdrawals,
             "nIns": n_ins, "insMissing": ins_missing, "insDup": ins_dup,
             "spent": spent, "outs": outs,
             "fee": big_json_u64(metx.fee().unwrap_or(0)),
